@@ -8,7 +8,7 @@
 (*     ev.count = number of strings, ev.witness = some of them.               *)
 (* k = "deferred": a syntactically valid string with one modification value   *)
 (*     in one slot; ev.v = the value; ev.parse / ev.mass / ev.comp outcomes.  *)
-EXTENDS TraceBase, Mods
+EXTENDS TraceBase, Mass
 VARIABLE l
 
 BucketFails(ev) ==
@@ -91,7 +91,19 @@ DeferredAdductFails(ev) ==
     \cup (IF ev.parse.cls = "ret" /\ ev.comp.cls # "ret" /\ ev.comp.isv = 0 THEN {"comp_raises_" \o ev.comp.cls} ELSE {})
     \cup (IF IsAdducts(ev.adduct) /\ ev.parse.cls = "ret" /\ ev.mass.cls # "ret" THEN {"valid_adducts_rejected"} ELSE {})
 
+(* global rules "<...@targets>": a rule without a bracketed modification means nothing and must not be accepted     *)
+(* silently by the calculators (ev.rule = tagged rule text)                                                           *)
+DeferredRuleFails(ev) ==
+    LET r == StaticRule(ev.rule)
+        empty == r.mods = <<>> IN
+    (IF ev.parse.cls # "ret" /\ ev.parse.isv = 0 THEN {"parser_raises_" \o ev.parse.cls} ELSE {})
+    \cup (IF ev.parse.cls = "ret" /\ ev.mass.cls # "ret" /\ ev.mass.isv = 0 THEN {"mass_raises_" \o ev.mass.cls} ELSE {})
+    \cup (IF ev.parse.cls = "ret" /\ ev.comp.cls # "ret" /\ ev.comp.isv = 0 THEN {"comp_raises_" \o ev.comp.cls} ELSE {})
+    \cup (IF empty /\ ev.parse.cls = "ret" /\ ev.mass.cls = "ret" /\ ev.massUnchanged
+          THEN {"global_rule_without_a_modification_silently_ignored"} ELSE {})
+    \cup (IF ~empty /\ SemSum(r.mods).ok /\ ev.parse.cls = "ret" /\ ev.mass.cls # "ret" THEN {"valid_global_rule_rejected"} ELSE {})
 Fails(ev) == CASE ev.k = "bucket" -> BucketFails(ev)
+               [] ev.k = "deferred_rule" -> DeferredRuleFails(ev)
                [] ev.k = "deferred_label" -> DeferredLabelFails(ev)
                [] ev.k = "deferred_adduct" -> DeferredAdductFails(ev)
                [] ev.k = "deferred" -> DeferredFails(ev)
